@@ -41,7 +41,7 @@ func (g *xgen) atom() string {
 		return g.pick(`"s"`, "`raw`", `""`, `"a\tb"`)
 	case 7:
 		g.hit("interp_string")
-		return g.pick(`"${x}"`, `"a ${x + 1} b"`, `"${f(x)}${y}"`, `"$$"`, `"${"`, `"${x"`, `"$x ${y}"`, `"${a b}"`, `"${x => x}"`, `"${{a: 1}}"`, `"${[x for x in y]}"`, `"${"s"}"`)
+		return g.interp()
 	case 8:
 		g.hit("cstring")
 		return g.pick(`c"x"`, `py"x"`, `C"x"`, `c""`)
@@ -60,6 +60,78 @@ func (g *xgen) atom() string {
 		return g.pick("type", "map", "goto", "break", "continue", "fallthrough") // keywords usable as identifiers in XGo
 	}
 	return g.ident()
+}
+
+// interp: a string literal whose text is built by a small grammar over the interpolation
+// syntax: plain text, "$$", "$ident", "${expr}", a lone '$' at any position (also last),
+// unterminated "${", nested braces, escapes, multi-byte runes; interpreted or raw.
+func (g *xgen) interp() string {
+	raw := g.r.Chance(25)
+	var b strings.Builder
+	n := 1 + g.r.Intn(6)
+	for i := 0; i < n; i++ {
+		switch g.r.Intn(14) {
+		case 0, 1:
+			b.WriteString(g.pick("a", "cost ", "x y", "5", ", or ", "{", "}", "{}", ":", "é", "世界", " ", "%d", "#"))
+		case 2:
+			b.WriteString("$$")
+		case 3, 4:
+			b.WriteString("$" + g.pick("x", "a", "HOME", "5", "_", "é", "x.y", "1km"))
+		case 5, 6:
+			b.WriteString("${" + g.pick("x", "a + 1", "f(x)", "x.y", "xs[0]", "a b", "", " ", "x => x", "[1, 2]", "1:3", "(a, b)", "\"s\"", "x!") + "}")
+		case 7, 8:
+			b.WriteString("$") // lone '$' (last position when it is the final part)
+		case 9:
+			b.WriteString("${" + g.pick("x", "", "a{", "f("))
+		case 10:
+			b.WriteString("${" + g.pick("{a: 1}", "m{k}", "x{y{z}}", "}{", "{}") + "}")
+		case 11:
+			if raw {
+				b.WriteString("\\n")
+			} else {
+				b.WriteString(g.pick("\\n", "\\\"", "\\\\", "\\x24", "\\u0024{x}", "\\t$", "\\044"))
+			}
+		case 12:
+			b.WriteString(g.pick("$é", "${世}", "é$", "$\u00e9"))
+		case 13:
+			b.WriteString(g.pick("}", "{$", "$}", "$ {x}", "$\t", "$$$", "$${x}", "${${x}}"))
+		}
+	}
+	t := b.String()
+	if raw {
+		return "`" + strings.ReplaceAll(t, "`", "") + "`"
+	}
+	t = strings.ReplaceAll(t, "\n", " ")
+	return "\"" + t + "\""
+}
+
+// ---- combination schedule ----------------------------------------------------------------
+// XGo-specific conjunctions (tuple x range x lambda x for-in ...) are rare under independent
+// draws.  The factors below are combined exhaustively (full product, 4-wise): every context with
+// every operand shape, every range form and every suffix.
+
+var comboCtx = []string{
+	"for v in %s {\n}\n", "for v <- %s {\n}\n", "for v := range %s {\n}\n", "for k, v in %s if v {\n}\n", "for %s {\n}\n",
+	"x := [v for v in %s]\n", "x := {k: v for k, v <- %s}\n", "println %s\n", "x := %s\n", "f(%s)\n", "y := z => %s\n",
+	"x[%s] = 1\n", "return %s\n", "x := {%s: 1}\n", "echo [%s]\n", "x, y = %s\n", "go %s\n", "ch <- %s\n", "if %s {\n}\n", "switch %s {\n}\n",
+}
+var comboOperand = []string{"(a, b)", "(a...)", "()", "(a)", "a", "f(a)", "[a, b]", "x => x", "T{a}", "(a, b, c)", "{a: b}", "a!", "\"$a$\"", "1"}
+var comboRange = []string{"%s", "%s:c", ":%s", "%s:c:%s", "%s:", "%s:%s"}
+var comboSuffix = []string{"", " => 1", " => {\n}", "!", "?:0", ".f", "[0]", "(1)", " => (a, b)", "...", ", d", " + 1"}
+
+func comboCount() int { return len(comboCtx) * len(comboOperand) * len(comboRange) * len(comboSuffix) }
+
+// comboFragment returns the i-th combination: the statement and the bare expression.
+func comboFragment(i int) (stmt, expr string) {
+	c := comboCtx[i%len(comboCtx)]
+	i /= len(comboCtx)
+	o := comboOperand[i%len(comboOperand)]
+	i /= len(comboOperand)
+	r := comboRange[i%len(comboRange)]
+	i /= len(comboRange)
+	s := comboSuffix[i%len(comboSuffix)]
+	e := strings.ReplaceAll(r, "%s", o) + s
+	return strings.Replace(c, "%s", e, 1), e
 }
 
 func (g *xgen) exprList(d, max int) string {
